@@ -31,6 +31,8 @@ pub fn components() -> Vec<String> {
     v.push("  .--.\n ( ab )-->\n  `--'".into());
     // quoted text with a zero-width character (blanking width)
     v.push("\"e\u{301}tat\" x\n+--+\n|  |\n+--+".into());
+    v.push("\"in|out\"".into());
+    v.push("\"-->\" x".into());
     v.push("- - -".into());
     v.push("- - - -\n  |".into());
     v.push("-->".into());
@@ -97,7 +99,7 @@ impl Prop for C10 {
          distinct_nontrivial = distinct skeletons of joint renderings with elements from both parts"
     }
     fn assumptions(&self) -> Vec<String> {
-        vec!["components are legend-free, tag-free and contain no unbalanced quote".into()]
+        vec!["components are legend-free, tag-free and contain no unbalanced quote, except in the lone-quote scope where the piece with the unpaired quote never stands to the left of another quote on its row (quotes pair per row from the left by design)".into()]
     }
     fn scopes(&self, tier: Tier, seed: u64) -> Vec<Scope> {
         let mut v = vec![];
@@ -116,6 +118,23 @@ impl Prop for C10 {
                                 f(Case::snx("", vec![layout, gap], vec![k[a].clone(), k[b].clone()]));
                             }
                         }
+                    }
+                }
+            },
+        ));
+        v.push(Scope::new(
+            "lone-quote",
+            "every component with a one-row piece holding an unpaired quote (5\" , \" , x\" y): the piece to the right of the component (gaps 1..3; quotes pair from the left, so the unpaired one stays literal), and above or below it",
+            |f| {
+                let k = components();
+                for a in 0..k.len() {
+                    for b in ["5\"", "\"", "x\" y"] {
+                        for gap in 1..=3 {
+                            f(Case::snx("", vec![0, gap], vec![k[a].clone(), b.to_string()]));
+                        }
+                        f(Case::snx("", vec![1, 1], vec![k[a].clone(), b.to_string()]));
+                        f(Case::snx("", vec![1, 1], vec![b.to_string(), k[a].clone()]));
+                        f(Case::snx("", vec![3, 1], vec![b.to_string(), k[a].clone()]));
                     }
                 }
             },
